@@ -319,4 +319,23 @@ theorem transferAll_complete {a : Aig} {defs : Defs} (hd : DefsOk a defs) (hf : 
     simp only [transferAll, e]
     exact ih st1 p.inv (hk.mono p.ext.keys) (fun l' hl' => h l' (List.mem_cons_of_mem _ hl'))
 
+
+/-- A well-formed graph is accepted (with fuel exceeding the number of gates). -/
+theorem renumber_complete {cfg : Config} {a : Aig} {fuel : Nat} (hn : (definedVars a).Nodup)
+    (hg : ∀ r ∈ roots cfg a, Grounded a (r / 2)) (hf : a.gates.length < fuel) :
+    ∃ o m, renumber cfg a fuel = .ok (o, m) := by
+  obtain ⟨defs, h1⟩ := litDefs_complete hn
+  obtain ⟨st0, h2, hk⟩ := init_complete hn h1
+  have i0 : Inv a st0 :=
+    (initLatches_inv a.latches [] _ _ (by simp)
+      (by simpa using initInputs_inv (a := a) a.inputs [] St.init (by simp) (initInv_init a)) h2).toInv
+  obtain ⟨st, h3⟩ := transferAll_complete (litDefs_defsOk h1) (litDefs_defsFull h1) hn cfg fuel
+    (roots cfg a) st0 i0 hk (by
+      intro l hl
+      obtain ⟨n, gn⟩ := (hg l hl).height
+      exact ⟨n, gn, by have := gn.le_gates hn; omega⟩)
+  unfold renumber initState
+  simp only [h1, h2, h3]
+  exact ⟨_, _, rfl⟩
+
 end Flussab.Aig
